@@ -91,7 +91,7 @@ C == <<58>>
 ValidForms == { <<>>, H1, C \o H1, H1 \o C \o H2, HsEmptyLM \o C \o HsEmptyNT, HsEmptyNT }
 InvalidForms == { H1 \o C, SubSeq(H1, 1, 31), H1 \o <<48>>, <<103>> \o Tail(H1), H1 \o C \o H2 \o C \o H1, H1 \o <<32>> \o C \o H2,
                   H1 \o C \o <<32>> \o H2, C, H1 \o C \o SubSeq(H2, 1, 31), C \o C \o H1, SubSeq(H1, 1, 16) \o <<32>> \o SubSeq(H1, 17, 32) }
-HashPads == { <<>>, <<32>>, <<9>>, <<10>>, <<32, 32>>, <<13, 10>>, <<9, 32, 10>> }
+HashPads == { <<>>, <<32>>, <<9>>, <<10>>, <<32, 32>>, <<13, 10>>, <<9, 32, 10>>, <<11>>, <<12>>, <<160>>, <<133>>, <<8232>>, <<12288, 32>>, <<8195>> }
 Mixed(s) == [i \in 1..Len(s) |-> IF i % 3 = 0 THEN HsUpperCp(s[i]) ELSE s[i]]
 Cased(s, cs) == CASE cs = "lower" -> s [] cs = "upper" -> HsUpper(s) [] cs = "mixed" -> Mixed(s)
 HashCases == { [form |-> Cased(f, cs), l |-> l, r |-> r, cs |-> cs] :
